@@ -1108,6 +1108,32 @@ void t_optional_unary()
           std::vector<int> none;
           cx.result_of(r, keep ? &all : &none);
         });
+  // filter with a predicate that takes its parameter BY VALUE (legal for the documented signature bool (value_type)) and
+  // consumes it: whatever the predicate does with its own parameter object, the optional that filter returns still
+  // holds the element ("appears exactly once in the result", "never reads an object after moving from it").  The event
+  // log is not judged here (the by-value parameter is the caller's copy); the returned payload is.
+#ifndef C05_MO // (a by-value parameter is copy-initialised from the held element: not for the move-only build)
+  {
+    observed_scope const os;
+    for (unsigned rvalue = 0; rvalue < 2; ++rvalue)
+      run_case("optional::filter/by-value-consuming-predicate", rvalue ? "R" : "L", "accept", [&](case_t &cx) {
+        int const payload = cx.fresh();
+        oE src{E(make_t{}, payload)};
+        auto const consuming = [](E x) {
+          E sink(std::move(x));
+          (void)sink;
+          return true;
+        };
+        oE const r = rvalue ? fcppt::optional::filter(std::move(src), consuming) : fcppt::optional::filter(src, consuming);
+        if (!r.has_value() || r.get_unsafe().peek() != payload)
+          vf::violation(std::string("optional::filter/by-value-consuming-predicate[") + (rvalue ? "R" : "L") + "]/element-lost-from-the-result", "mismatch",
+                        "the returned optional holds payload " + std::to_string(r.has_value() ? r.get_unsafe().peek() : -999) + ", the argument held " + std::to_string(payload));
+        if (!rvalue && (!src.has_value() || src.get_unsafe().peek() != payload))
+          vf::violation("optional::filter/by-value-consuming-predicate[L]/lvalue-argument-changed", "mismatch", "");
+        VF_COUNT("filter/by-value-consuming-predicate");
+      });
+  }
+#endif
   // join: optional<optional<E>>: nothing / some(nothing) / some(some(x))
   nary<1>(
       "optional::join", 3,
